@@ -2,8 +2,10 @@ package zzverif
 
 import (
 	"context"
+
 	"encoding/json"
 	"fmt"
+	"github.com/ory/keto/internal/namespace/ast"
 	"net/url"
 	"sort"
 	"strings"
@@ -28,6 +30,8 @@ type reconfStep struct {
 	Depth int      `json:"depth"` // the configuration in force after the step
 	Width int      `json:"width"`
 	Ns    []string `json:"ns"`
+	// Content of namespace n: "plain" (no relations declared) or "rw" (r, and r2 := r2 or r)
+	Content string `json:"content"`
 }
 
 type reconfIn struct {
@@ -39,12 +43,17 @@ type reconfIn struct {
 
 func init() { families["reconf"] = famReconf }
 
-func reconfNamespaces(ns []string) []*namespace.Namespace {
+func reconfNamespaces(ns []string, content string) []*namespace.Namespace {
 	var out []*namespace.Namespace
 	s := append([]string{}, ns...)
 	sort.Strings(s)
 	for _, n := range s {
-		out = append(out, &namespace.Namespace{Name: n})
+		x := &namespace.Namespace{Name: n}
+		if n == "n" && content == "rw" {
+			x.Relations = []ast.Relation{{Name: "r"},
+				{Name: "r2", SubjectSetRewrite: &ast.SubjectSetRewrite{Children: ast.Children{&ast.ComputedSubjectSet{Relation: "r"}}}}}
+		}
+		out = append(out, x)
 	}
 	return out
 }
@@ -70,8 +79,8 @@ func reconfData() []*ketoapi.RelationTuple {
 	}
 }
 
-func reconfServer(t *testing.T, depth, width int, ns []string) *storeEnv {
-	reg := driver.NewSqliteTestRegistry(t, false, driver.WithLogLevel("panic"), driver.WithNamespaces(reconfNamespaces(ns)),
+func reconfServer(t *testing.T, depth, width int, ns []string, content string) *storeEnv {
+	reg := driver.NewSqliteTestRegistry(t, false, driver.WithLogLevel("panic"), driver.WithNamespaces(reconfNamespaces(ns, content)),
 		driver.WithConfig(config.KeyLimitMaxReadDepth, depth), driver.WithConfig(config.KeyLimitMaxReadWidth, width))
 	writeOrderedRaw(t, reg, reconfData())
 	return envFor(t, reg)
@@ -89,8 +98,11 @@ func (e *storeEnv) reconfDo(req string) string {
 	}
 	chain := url.Values{"namespace": {"n"}, "object": {"o1"}, "relation": {"r"}, "subject_id": {"u"}}
 	switch {
-	case strings.HasPrefix(req, "check_chain"), req == "check_wide", req == "check_m":
+	case strings.HasPrefix(req, "check_chain"), req == "check_wide", req == "check_m", req == "check_rw":
 		q := chain
+		if req == "check_rw" {
+			q = url.Values{"namespace": {"n"}, "object": {"o4"}, "relation": {"r2"}, "subject_id": {"u"}}
+		}
 		if req == "check_wide" {
 			q = url.Values{"namespace": {"n"}, "object": {"w"}, "relation": {"r"}, "subject_id": {"u"}}
 		} else if req == "check_m" {
@@ -156,14 +168,14 @@ func famReconf(t *testing.T) {
 	keyOf := func(s reconfStep) string {
 		ns := append([]string{}, s.Ns...)
 		sort.Strings(ns)
-		return fmt.Sprintf("%d/%d/%s", s.Depth, s.Width, strings.Join(ns, ","))
+		return fmt.Sprintf("%d/%d/%s/%s", s.Depth, s.Width, strings.Join(ns, ","), s.Content)
 	}
 	for hi, h := range in.Histories {
 		if hi%sn != si {
 			continue
 		}
 		t.Run(fmt.Sprintf("h%d", h.Run), func(t *testing.T) {
-			live := reconfServer(t, 8, 100, []string{"n", "m"})
+			live := reconfServer(t, 8, 100, []string{"n", "m"}, "plain")
 			bg := context.Background()
 			var diffs []map[string]any
 			nreq, afterChange := 0, 0
@@ -176,8 +188,8 @@ func famReconf(t *testing.T) {
 						err = live.reg.Config(bg).Set(config.KeyLimitMaxReadDepth, s.Depth)
 					case "width":
 						err = live.reg.Config(bg).Set(config.KeyLimitMaxReadWidth, s.Width)
-					default:
-						err = live.reg.Config(bg).Set(config.KeyNamespaces, reconfNamespaces(s.Ns))
+					default: // "ns" and "content": the namespace list is one setting
+						err = live.reg.Config(bg).Set(config.KeyNamespaces, reconfNamespaces(s.Ns, s.Content))
 					}
 					if err != nil {
 						t.Fatalf("set %s: %v", s.Key, err)
@@ -188,7 +200,7 @@ func famReconf(t *testing.T) {
 				k := keyOf(s)
 				f, ok := fresh[k]
 				if !ok {
-					f = reconfServer(top, s.Depth, s.Width, s.Ns)
+					f = reconfServer(top, s.Depth, s.Width, s.Ns, s.Content)
 					fresh[k] = f
 				}
 				got, want := live.reconfDo(s.Req), f.reconfDo(s.Req)
